@@ -115,7 +115,7 @@ pub fn programs(thorough: bool, seed: u64) -> Vec<(String, String)> {
     add("empty", "SELECT count(*) FROM t1 INNER JOIN (SELECT a FROM t2 WHERE 1 = 0) x ON t1.a = x.a".into());
     // --- seeded random joins with random predicates
     let mut rng = Rng::new(seed ^ 0xC03);
-    let nr = if thorough { 1500 } else { 160 };
+    let nr = if thorough { 300 } else { 160 };
     for _ in 0..nr {
         let jt = *rng.pick(&JOINS);
         let on_extra = if rng.chance(1, 3) { format!(" AND {}", if rng.chance(1, 2) { preds_one("t1", &["a", "b"], &mut rng) } else { preds_one("t2", &["a", "c"], &mut rng) }) } else { String::new() };
@@ -140,6 +140,10 @@ pub fn programs(thorough: bool, seed: u64) -> Vec<(String, String)> {
         } else {
             add("random-join", format!("SELECT {sel} FROM t1 {jt} t2 ON t1.a = t2.a{on_extra}{wh}"));
         }
+    }
+    // development aid: VERIF_SQL_FILTER=<substring> keeps only the programs whose text contains it
+    if let Ok(f) = std::env::var("VERIF_SQL_FILTER") {
+        out.retain(|(_, s)| s.contains(&f));
     }
     out
 }
@@ -243,7 +247,7 @@ fn culprit(analyzed: &LogicalPlan, rules: &[Arc<dyn OptimizerRule + Send + Sync>
 
 pub fn run(thorough: bool, seed: u64, threads: usize) -> Value {
     let t0 = std::time::Instant::now();
-    let timeout_ms = if thorough { 300000 } else { 60000 };
+    let timeout_ms = if thorough { 120000 } else { 60000 };
     let nrows = if thorough { 3 } else { 2 };
     let mut duo0 = Duo::new(timeout_ms, false);
     let grid = crate::grid::validate(&mut duo0, false);
@@ -295,7 +299,7 @@ pub fn run(thorough: bool, seed: u64, threads: usize) -> Value {
                                 Err(e) => t.inconclusive.push(format!("optimizer failed on {sql}: {e}")),
                             }
                             // (ii) each rule alone, (iii) the pipeline minus one rule: on a rotating slice of programs
-                            let do_rules = thorough || (pi + ci) % 3 == 0;
+                            let do_rules = (pi + ci) % 3 == 0;
                             if do_rules {
                                 for (ri, rule) in all_rules.iter().enumerate() {
                                     let single = Optimizer::with_rules(vec![rule.clone()]);
@@ -307,7 +311,7 @@ pub fn run(thorough: bool, seed: u64, threads: usize) -> Value {
                                             t.handle(&format!("rule-alone/{}", rule.name()), sql, &analyzed, &opt, out, format!("rule alone: {}", rule.name()));
                                         }
                                     }
-                                    if thorough || (pi + ri) % 3 == 0 {
+                                    if (pi + ri) % 3 == 0 {
                                         let mut rest = all_rules.clone();
                                         rest.remove(ri);
                                         let minus = Optimizer::with_rules(rest.clone());
